@@ -905,6 +905,20 @@ func binaryOp(op string, a, b Value) (Value, error) {
 			case Text, Unk:
 				s, _ := textOf(k)
 				return jsonDeleteKey(j, s)
+			case *Array:
+				// doc 9.16 Table 9.46: jsonb - text[] deletes all matching keys or array elements
+				out := j
+				for _, it := range k.Items {
+					if it == nil {
+						continue
+					}
+					s, _ := textOf(it)
+					var err error
+					if out, err = jsonDeleteKey(out, s); err != nil {
+						return nil, err
+					}
+				}
+				return out, nil
 			case int64:
 				if j.Kind != JArray {
 					return nil, pgErr("22023", "cannot delete from object using integer index")
@@ -999,7 +1013,7 @@ func binaryOp(op string, a, b Value) (Value, error) {
 			return nil, nil
 		}
 		if op == "->>" {
-			return r.textValue(), nil
+			return jsonChildOf(j, r).textValue(), nil
 		}
 		c := r.Clone()
 		c.B = j.B
@@ -1032,7 +1046,7 @@ func binaryOp(op string, a, b Value) (Value, error) {
 			return nil, nil
 		}
 		if op == "#>>" {
-			return r.textValue(), nil
+			return jsonChildOf(j, r).textValue(), nil
 		}
 		c := r.Clone()
 		c.B = j.B
@@ -1197,6 +1211,32 @@ func asJSON(v Value) (*JSON, error) {
 		return p.Normalize(), nil
 	}
 	return nil, pgErr("42883", "operator does not exist for type %s (json expected)", typeNameOf(v))
+}
+
+// asJSONArg is asJSON for the argument of a json_xxx / jsonb_xxx function: an untyped
+// literal takes the parameter type of the function, so for a json_ function it is a json
+// value (exact text kept), not a jsonb one.
+func asJSONArg(fname string, v Value) (*JSON, error) {
+	if u, ok := v.(Unk); ok && strings.HasPrefix(fname, "json_") {
+		p, err := ParseJSON(string(u))
+		if err != nil {
+			return nil, err
+		}
+		p.Raw = string(u)
+		return p, nil
+	}
+	return asJSON(v)
+}
+
+// jsonChildOf returns member r of j printed in j's format (jsonb members always print in
+// the jsonb format, whatever flags the node carries).
+func jsonChildOf(j, r *JSON) *JSON {
+	if r == nil || r.B == j.B {
+		return r
+	}
+	c := r.Clone()
+	c.B = j.B
+	return c
 }
 
 func asJSONB(v Value) (*JSON, error) {
